@@ -1436,6 +1436,54 @@ def _table_const_behind(b, o, depth=10):
     return None
 
 
+
+def enum_array_behind(F, b, o, depth=10):
+    """variant names of the `[Enum; N]` constant of a fieldless crate-local enum an operand denotes (through copies, borrows,
+    unsizing): the i-th name is the variant stored at index i.  None when the operand is no such constant, or when the
+    facts do not say which byte each variant is stored as."""
+    for _ in range(depth):
+        k = op_const(o)
+        if k is not None:
+            raw, ty = None, None
+            if "refraw" in k:
+                raw, ty = k["refraw"], k.get("ty", "").lstrip("&")
+            elif k.get("def") and k["def"] in F.consts and "raw" in F.consts[k["def"]]:
+                raw, ty = F.consts[k["def"]]["raw"], F.consts[k["def"]].get("ty", "")
+            elif "static" in k and "raw" in (F.statics.get(k["static"]) or {}):
+                raw, ty = F.statics[k["static"]]["raw"], F.statics[k["static"]].get("ty", "")
+            if raw is None:
+                return None
+            m = re.match(r"^\[(.+); (\d+)\]$", ty.strip())
+            if not m:
+                return None
+            a = F.adts.get(m.group(1))
+            n = int(m.group(2))
+            data = bytes.fromhex(raw)
+            if a is None or not a.get("enum") or any(v["fields"] for v in a["variants"]) or n == 0 or len(data) != n:
+                return None      # one byte per element: a fieldless enum of at most 256 variants
+            by = {}
+            for v in a["variants"]:
+                if "discr" not in v:
+                    return None
+                by[v["discr"] & 0xFF] = v["name"]
+            names = [by.get(x) for x in data]
+            return None if any(x is None for x in names) else names
+        p_ = op_place(o)
+        if p_ is None:
+            return None
+        d = b.single_def(p_["l"])
+        if d is None:
+            return None
+        if d[2] == "rv" and d[3]["k"] in ("use", "cast"):
+            o = d[3]["o"]
+        elif d[2] == "rv" and d[3]["k"] == "ref":
+            o = {"c": {"l": d[3]["p"]["l"], "p": []}}
+        elif d[2] == "call" and d[3]["args"] and (d[3]["f"].get("fn") or "").rsplit("::", 1)[-1] in ("as_slice", "deref", "as_ref", "borrow"):
+            o = d[3]["args"][0]
+        else:
+            return None
+    return None
+
 def table_lookups(F, b):
     """`TABLE.iter().find(|row| row.K == key)` over a table kept in data: [{call, rows, key_field, key ('upvar', i) / ('other', None),
     closure}].  The result of the call is Option<&row>; `lookup_field(b, operand, lk)` says which field of the found row an
